@@ -39,6 +39,10 @@ REPS = {
     "full-shuffled[0,+,-]": ([0, 1, -1], (3, 0, 5, 1, 7, 2, 6, 4), (6, 1, 4, 7, 0, 2, 5, 3)),
     "sparse-overlap[+,-,+]": ([1, -1, 1], (1, 6, 3), (6, 3, 0, 5)),
 }
+THOROUGH_REPS = {
+    "full-shuffled 4-D[0,+,+,-]": ([0, 1, 1, -1], tuple((k * 7 + 2) % 16 for k in range(16)), tuple((k * 11 + 5) % 16 for k in range(16))),
+    "sparse 5-D[+,+,-,0,+]": ([1, 1, -1, 0, 1], (31, 3, 12, 17, 0, 6, 24, 21), (5, 10, 31, 16, 1, 14, 27)),
+}
 EMPTY_REPS = {"empty-left[+,+]": ([1, 1], (), (1, 3)), "empty-right[+,+]": ([1, 1], (0, 2), ())}
 
 
@@ -151,7 +155,7 @@ def table(ctx):
     reg = operator_registry(repo)
     cg = reg["gp"].codegen if "gp" in reg else "codegen_gp"
     fn = ctx.func(f"codegen.{cg}")
-    for rep_name, (signature, xk, yk) in {**REPS, **EMPTY_REPS}.items():
+    for rep_name, (signature, xk, yk) in {**REPS, **EMPTY_REPS, **(THOROUGH_REPS if ctx.tier == "thorough" else {})}.items():
         c = f"codegen.{cg}#table:{rep_name}"
         got = run_product(ctx, repo, cg, signature, xk, yk, c)
         compare_result(ctx, c, fn, got, spec_product(signature, xk, yk), "geometric product")
